@@ -186,6 +186,75 @@ class State:
         return HeapView(self.ex, dict(self.heap), self.next_ref, owner=self)
 
 
+def merge_states(ex, states):
+    """exact join of path states (no abstraction): the common prefix of the path conditions is kept, the rest becomes one disjunction in which every
+    differing heap field / local / ghost value is a fresh symbol equated, per disjunct, with that path's value"""
+    first = states[0]
+    n = min(len(s_.pc) for s_ in states)
+    k = 0
+    while k < n and all(s_.pc[k] is first.pc[k] or s_.pc[k].eq(first.pc[k]) for s_ in states[1:]):
+        k += 1
+    m = State(ex)
+    m.pc = list(first.pc[:k])
+    m.depth = max(s_.depth for s_ in states)
+    eqs = [[] for _ in states]
+    same = lambda ts: all(t is ts[0] or t.eq(ts[0]) for t in ts[1:])
+    # allocation counter
+    nrs = [s_.next_ref for s_ in states]
+    if same(nrs):
+        m.next_ref = nrs[0]
+    else:
+        m.next_ref = S.fresh('next_ref', z3.IntSort())
+        for i_, t in enumerate(nrs):
+            eqs[i_].append(m.next_ref == t)
+    # heap
+    merged_fields = []
+    for fld in sorted(set().union(*[set(s_.heap) for s_ in states])):
+        ts = [s_.field(fld) for s_ in states]
+        if same(ts):
+            m.heap[fld] = ts[0]
+        else:
+            nt = S.fresh('mg_' + fld, ts[0].sort())
+            m.heap[fld] = nt
+            merged_fields.append((fld, nt))
+            for i_, t in enumerate(ts):
+                eqs[i_].append(nt == t)
+    # locals bound on every path
+    for nm in sorted(set.intersection(*[set(s_.env) for s_ in states])):
+        vs = [s_.env[nm] for s_ in states]
+        if same([v.t for v in vs]) and len({repr(v.ty) for v in vs}) == 1:
+            m.env[nm] = vs[0]
+            continue
+        ty = vs[0].ty if len({repr(v.ty) for v in vs}) == 1 else S.Any
+        nt = S.fresh('mg_' + nm)
+        m.env[nm] = V(nt, ty)
+        for i_, v in enumerate(vs):
+            eqs[i_].append(nt == v.t)
+    # ghost state
+    for g in sorted(set.intersection(*[set(s_.ghost) for s_ in states])):
+        gs = [s_.ghost[g] for s_ in states]
+        if all(isinstance(x, z3.ExprRef) for x in gs):
+            if same(gs):
+                m.ghost[g] = gs[0]
+            else:
+                nt = S.fresh('mg_gh_' + g, gs[0].sort())
+                m.ghost[g] = nt
+                for i_, x in enumerate(gs):
+                    eqs[i_].append(nt == x)
+        elif all(x == gs[0] for x in gs[1:]):
+            m.ghost[g] = gs[0]
+    m.pc.append(z3.Or(*[z3.And(*(list(s_.pc[k:]) + eqs[i_])) if (len(s_.pc) > k or eqs[i_]) else z3.BoolVal(True) for i_, s_ in enumerate(states)]))
+    for fld, nt in merged_fields:
+        for ax in ex.heap_axioms(fld, nt, m.next_ref):
+            m.assume(ax)
+        ex.register_epoch(nt, m.next_ref)
+    for nm, v in m.env.items():
+        if v.ty.kind != 'any':
+            m.assume(S.has_type(v.t, v.ty, m.next_ref))
+        m.assume(below(v.t, m.next_ref))
+    return m
+
+
 class HeapView:
     """read-only view of a heap for specifications"""
 
@@ -361,6 +430,7 @@ class Exec:
         self._bound_consts = set()
         self.epochs = {}
         self.stmt_hooks = [(k[len('after_stmt:'):], h) for k, h in contract.ghost_hooks.items() if k.startswith('after_stmt:')]
+        self.before_hooks = [(k[len('before_stmt:'):], h) for k, h in contract.ghost_hooks.items() if k.startswith('before_stmt:')]
         self.global_axioms = below_axioms() + list(registry.axioms)
         self._number_loops(self.fn)
         self.notes = []
@@ -647,6 +717,12 @@ class Exec:
     def block(self, stmts, st):
         outs = [Outcome('normal', st)]
         for s in stmts:
+            if getattr(self.c, 'merge_before', None) and len([o for o in outs if o.kind == 'normal']) > 1:
+                src = ast.unparse(s)
+                if any(src.startswith(p_) for p_ in self.c.merge_before):
+                    normals = [o.st for o in outs if o.kind == 'normal']
+                    outs = [o for o in outs if o.kind != 'normal'] + [Outcome('normal', merge_states(self, normals))]
+                    self.merged_at = getattr(self, 'merged_at', []) + [(s.lineno, len(normals))]
             nxt = []
             for o in outs:
                 if o.kind != 'normal':
@@ -667,6 +743,11 @@ class Exec:
         m = getattr(self, 'st_' + type(s).__name__, None)
         if m is None:
             raise Unsupported(f'statement {type(s).__name__} at line {s.lineno}: {ast.unparse(s)[:80]}')
+        if self.before_hooks:
+            src0 = ast.unparse(s)
+            for prefix, hook in self.before_hooks:
+                if src0.startswith(prefix):
+                    hook(self, st, s)
         outs = m(s, st)
         if self.stmt_hooks and not isinstance(s, (ast.If, ast.For, ast.While, ast.Try, ast.With)):
             src = ast.unparse(s)
@@ -1093,6 +1174,9 @@ class Exec:
         if e.id in self.assigned_names():
             self.safety(st, 'UnboundLocalError', e.id, z3.BoolVal(False))
             return V(S.fresh('unbound_' + e.id), S.Any)
+        cv = self.reg.const_values.get(e.id)
+        if cv is not None:
+            return cv(self, st)
         try:
             c = source.resolve_name(self.mod, e.id)
         except source.ConstError as x:
@@ -1502,6 +1586,8 @@ class Exec:
         if lk == 'list' and rk == 'list':
             h = st.field('list')
             return st.sel('list', S.addr(l.t)) == st.sel('list', S.addr(r.t))
+        if lk == 'set' and rk == 'set':
+            return st.sel('dom', S.addr(l.t)) == st.sel('dom', S.addr(r.t))      # extensional: same members
         raise Unsupported(f'== between {l.ty} and {r.ty}: {desc}')
 
     def contains(self, c, x, st, desc):
